@@ -75,7 +75,7 @@ func (g *Gen) tplLineProbes() []L.Stmt {
 	defer func() { g.fn = saved }()
 	var out []L.Stmt
 	for i, n := 0, 1+g.n(4, "nprobes"); i < n; i++ {
-		form := g.n(12, "lineprobe")
+		form := g.n(15, "lineprobe")
 		g.class("lineprobe:" + itoa(form))
 		switch form {
 		case 0:
@@ -113,6 +113,53 @@ func (g *Gen) tplLineProbes() []L.Stmt {
 			inner := fn(nil, false, blk(local1("t", tbl()), ret(bin("*", field(name("t"), "missing"), num(2)))))
 			outer := fn(nil, false, blk(local1("r", call(paren(inner))), ret(name("r"))))
 			out = append(out, emit(call(name("pcall"), outer)))
+		case 12, 13, 14:
+			// the failing (or calling-out) operation is the first instruction of its statement and follows a statement whose
+			// last instruction the code generator's peephole steps may have removed or rewritten
+			preds := []L.Stmt{
+				local1("v", bin("or", name("a"), name("b"))),
+				local1("v", bin("and", name("a"), name("b"))),
+				assign1(name("a"), bin("or", name("b"), str("x"))),
+				assign1(name("a"), bin("and", name("a"), bin("or", name("b"), num(3)))),
+				local1("v", bin("..", name("a"), bin("..", name("b"), str("c")))),
+				local1("v", num(5)),
+				local1("v", name("a")),
+				local1("v", un("not", name("a"))),
+				local1("v", bin("==", name("a"), name("b"))),
+				local1("v", bin("<", name("a"), name("b"))),
+				assign1(name("b"), name("a")),
+				ifs(name("a"), blk(assign1(name("b"), num(2))), nil),
+				&L.DoStmt{Body: blk(local1("w", name("a")))},
+			}
+			faults := []L.Stmt{
+				local1("r", field(name("z"), "fld")),
+				local1("r", bin("+", name("z"), num(1))),
+				local1("r", un("#", name("z"))),
+				local1("r", un("-", name("z"))),
+				local1("r", bin("<", name("z"), num(1))),
+				assign1(field(name("z"), "fld"), num(1)),
+				local1("r", idx(name("z"), name("a"))),
+				callStmt(mcall(name("z"), "method", num(1))),
+				local1("r", bin("^", name("z"), name("a"))),
+			}
+			pi, fi := g.n(len(preds), "predstmt"), g.n(len(faults), "faultstmt")
+			g.class("lineprobe:after_peephole_statement")
+			if form == 14 {
+				// not a fault: the operation calls a metamethod that asks for the line of its caller
+				mt := tbl()
+				for _, ev := range []string{"__index", "__add", "__len", "__unm", "__lt", "__newindex", "__pow"} {
+					mt.Fields = append(mt.Fields, kv(str(ev), fn(nil, true, blk(emitline(str(ev), field(call(field(name("debug"), "getinfo"), num(2), str("l")), "currentline")), ret(num(1))))))
+				}
+				body := blk(local1("z", call(name("setmetatable"), tbl(), mt)), local([]string{"a", "b"}, num(1), num(2)), preds[pi], faults[fi], ret(num(1)))
+				if fi == 2 || fi == 7 {
+					// (# on a table does not consult __len in 5.1; a method call needs a function from __index)
+					body = blk(local1("z", call(name("setmetatable"), tbl(), mt)), local([]string{"a", "b"}, num(1), num(2)), preds[pi], faults[0], ret(num(1)))
+				}
+				out = append(out, emit(call(name("pcall"), fn(nil, false, body))))
+				g.class("lineprobe:currentline_from_metamethod")
+			} else {
+				out = append(out, emit(call(name("pcall"), fn(nil, false, blk(local1("z", &L.NilExpr{}), local([]string{"a", "b"}, num(1), num(2)), preds[pi], faults[fi], ret(num(1)))))))
+			}
 		default:
 			// loop control faults are reported against the loop header
 			out = append(out, emit(call(name("pcall"), fn(nil, false, blk(&L.NumForStmt{Var: "i", Start: num(1), End: tbl(), Body: blk(emit(name("i")))})))))
